@@ -119,7 +119,7 @@ def gen_case(rng, i):
     wk = "receptor" if rng.integers(3) == 0 else "none"
     s.update({"B": X @ Mt.T + c0, "opt": opt, "val": val, "l2_eps": float(10 ** rng.uniform(-6, -3)),
               "wkind": wk, "W": rng.uniform(0.5, 2, m) if wk == "receptor" else None,
-              "tight": bool(rng.integers(2))})
+              "tight": bool(rng.integers(2)), "registered": bool(rng.integers(5) == 0)})
     return s
 
 
@@ -144,8 +144,8 @@ def chk_case(inp, c):
     del c.events[:]          # only the events of the judged call
     arg = {"l2": "l2", "none": None, "min": "min", "max": "max", "var": "var"}.get(opt, val)
     kw = dict(solver=cp.CLARABEL, tol_gap_abs=1e-10, tol_gap_rel=1e-10, tol_feas=1e-10) if inp["tight"] else {}
-    out = c.call(est.fit_underdetermined, B.copy(), underdetermined_opt=arg, l2_eps=eps,
-                 _where=f"fit_underdetermined(opt={opt})", **kw)
+    out = gen.est_query(c, est, "fit_underdetermined", B.copy(), attrs=("X", "B"), registered=bool(inp.get("registered")),
+                        underdetermined_opt=arg, l2_eps=eps, _where=f"fit_underdetermined(opt={opt})", **kw)
     if not c.require(isinstance(out, tuple) and len(out) == 2, "returns (X, B_pred)", mechanism="return-type"):
         return
     X, Bp = np.asarray(out[0], float), np.asarray(out[1], float)
